@@ -96,6 +96,19 @@ PROPS = {
         technique="runtime monitoring: panic/abort monitor and error-location checker over mutated real grammars, mutated generated grammars and random token strings, both feature configurations",
         assumptions=["the unmodified corpus files fuzzsample*.grammar are fed only as mutation bases (fuzzsample2 is a known exponential-backtracking input that the call limit cuts short)"],
     ),
+    "C12": dict(
+        runs=[dict(bin="mon", sub="c12", features="", config="default")],
+        rule=("random grammars (G full) x every start rule x inputs (short exhaustive + walks + mutants, <= 24 bytes): the unlimited result and "
+              "the number N of combinator calls it needs (hook H1c final snapshot), then one parse under EVERY limit 1..N+3 (N <= 400). Oracle: each "
+              "limited result equals the unlimited one or is the `call limit reached` error, and once equal it stays equal for every larger "
+              "limit; CallRefused hook events confirm the limit really tripped. evaluations = limited parses. Non-trivial: N >= 8 and at least "
+              "one limit tripped; distinct = (grammar, rule, input) hashes."),
+        level_text=("Exploration with a complete sweep of the limit value per case: the real engine is run under every limit from 1 to beyond what "
+                    "the parse needs, so every point at which a refusal can be absorbed by a combinator is exercised for that case."),
+        level_note="Process-global knob: each shard is a single-threaded process. Cases whose unlimited parse panics (documented POP/PEEK on an empty stack) are skipped and counted.",
+        technique="runtime monitoring: exhaustive sweep of the call limit per (grammar, input) with result-equality and monotonicity oracle, refusal events from hooks",
+        assumptions=["cases the reference interpreter cannot finish are not parsed without a limit"],
+    ),
 }
 
 HOOK_COMMITS = [
